@@ -771,8 +771,59 @@ def many_reconnects_run(ctx, binp):
             continue
         last = [e for e in evs if e["ev"] == "e2e-conn-done"][-1]
         runs.append(dict(kind="predict", settings=settings, fps=fps, model="lepton3", model_events=mev, result=last, scen=scen,
-                         expected_motion={}, connections=nconn))
+                         expected_motion={}, connections=nconn, end=[e for e in evs if e["ev"] == "e2e-end"][-1]))
     return runs
+
+
+def lifecycle_trace(scen, end):
+    """Events for LifecycleTrace.tla from one daemon run: the lifecycle lines runMain printed (e2e-end.lifecycle) and,
+    for the k-th 'end' line, the whole frames the harness sent on the k-th connection."""
+    sent = []
+    for c in scen["conns"]:
+        if c.get("header_cut"):
+            sent.append(0); continue
+        data, fs, pos, n = base64.b64decode(c["payload"]), c["header"]["FrameSize"], 0, 0
+        while pos + 5 <= len(data):
+            if data[pos:pos + 5] == b"clear":
+                pos += 5
+            elif pos + fs <= len(data):
+                pos += fs; n += 1
+            else:
+                break
+        sent.append(n)
+    out, k = [dict(ev="run")], 0
+    for tok in end.get("lifecycle") or []:
+        if tok.startswith("header:"):
+            out.append(dict(ev="header", fps=int(tok[7:])))
+        elif tok.startswith("count:"):
+            out.append(dict(ev="count", n=int(tok[6:])))
+        elif tok == "end":
+            out.append(dict(ev="end", sent=sent[k] if k < len(sent) else -1)); k += 1
+        else:
+            out.append(dict(ev=tok))
+    return out
+
+
+def judge_lifecycle(ctx, runs):
+    """Beyond the listed properties: validate the lifecycle lines of e2e runs against Lifecycle.tla.  Returns a dict
+    (accepted, events, connections, progress_lines) - a rejection is reported as a NOTE by the caller."""
+    tr = []
+    for r in runs:
+        if r.get("kind") == "predict" and r.get("end") is not None and r.get("scen"):
+            tr += lifecycle_trace(r["scen"], r["end"])
+    if not tr:
+        return dict(accepted=None, events=0)
+    tp = ctx.path("run", "lifecycle.ndjson")
+    vlib.write_ndjson(tp, tr)
+    t = ctx.tlc("lifecycle_trace", "LifecycleTrace",
+                mkcfg(init="TInit", next_="TNext", post="Accepted",
+                      constants=dict(FpsSet={1}, MaxConn=100000, MaxFrames=10000000, Wrap=1073741824, Compounding=False), deadlock=False),
+                workers=1, files=[(tp, "trace.ndjson")], timeout=600, heap="2g", expect_ok=False)
+    acc = t.get("distinct", 0) == len(tr) + 1
+    return dict(accepted=acc, events=len(tr), rejected_after=(None if acc else t.get("distinct", 1) - 1),
+                rejected_event=(None if acc else tr[min(len(tr) - 1, max(0, t.get("distinct", 1) - 1))]),
+                connections=sum(1 for e in tr if e["ev"] == "end"), progress_lines=sum(1 for e in tr if e["ev"] == "count"),
+                daemon_runs=sum(1 for e in tr if e["ev"] == "run"))
 
 
 def c13_runs(ctx, binp):
